@@ -8,7 +8,8 @@ harness/solids.cc).  `Holds l p` := ∀ (sense, s) ∈ l, (s.quadric p < 0 ↔ s
 `OffSurfaces l p` := ∀ (_, s) ∈ l, s.quadric p ≠ 0.
 Helper lemmas: Lemmas/Solids.lean, SolidsPrim.lean, SolidsBox.lean, SolidsObj.lean.
 -/
-import CelerVerif.Lemmas.SolidsObj
+import CelerVerif.Lemmas.SolidsZone
+import CelerVerif.Props.C09
 
 namespace CelerVerif.Solids
 open CelerVerif CelerVerif.Surf
@@ -264,6 +265,78 @@ theorem bbox_exterior_unsound_ppiped :
     ∃ p : Vec3 ℝ, Holds (emitPpiped ⟨1, 1, 1⟩ (-3 / 5) (4 / 5) 0 1 0 1) p
       ∧ (ppipedBox ⟨1, 1, 1⟩ (-3 / 5 : ℝ) (4 / 5) 0 1 0 1).contains p = false :=
   ppiped_exterior_bbox_unsound
+
+/-- ★ cone (non-degenerate branch): reported interior ⊆ cone ⊆ reported exterior -/
+theorem bbox_sound_cone (lo hi hh : ℝ) (hlo : 0 ≤ lo) (hhi : 0 ≤ hi) (hhh : 0 < hh) (hne : lo ≠ hi)
+    (p : Vec3 ℝ) :
+    ((coneBoxes lo hi hh).2.contains p = true → inCone lo hi hh p = true) ∧
+    (inCone lo hi hh p = true → (coneBoxes lo hi hh).1.contains p = true) :=
+  coneBoxes_sound lo hi hh hlo hhi hhh hne p
+
+/-- ★(negative) prism: the reported interior box (the square of half-width apothem) is NOT inside
+    the polygon (4 sides, orientation 1/2).  The exterior box (circumradius) is covered by the
+    oracle only: with the code's 21-digit π literal the n face normals do not close up exactly. -/
+theorem bbox_interior_unsound_prism :
+    ∃ p : Vec3 ℝ, (prismBoxes 4 (1 : ℝ) 1).2.contains p = true ∧ inPrism 4 1 1 (1 / 2) p = false :=
+  prism_interior_bbox_unsound
+
+/-- GenPrism / GenTrap, PARTIAL: every planar side face the build emits,
+    `Plane{make_unit_vector(v), a}` with v = (jlo − ilo) × (ihi − ilo) and a = ilo (or the hi
+    variant for a degenerate lower edge), is the half-space `v·(p − a) < 0` of the plane through the
+    face's vertices, up to the positive factor 1/‖v‖.  FULL STATEMENT (the emitted planes and
+    twisted quadrics cut out exactly the solid whose cross-section at height z is the polygon
+    interpolated between the two end polygons, `inGenPrism`) is carried by the exact emission diff
+    and the membership / point-location oracles only. -/
+theorem genprism_planar_face_partial (v a p : Vec3 ℝ) (hv : 0 < v.x * v.x + v.y * v.y + v.z * v.z) :
+    ∃ s : ℝ, 0 < s ∧
+      (Surface.plane (makeUnit v) (Vec3.dot (makeUnit v) a)).quadric p
+        = s * (v.x * (p.x - a.x) + v.y * (p.y - a.y) + v.z * (p.z - a.z)) :=
+  plane_through_unit v a p hv
+
+/-! ### link to the bounding-zone algebra of Props/C09 (coordinates ℝ ∪ {±∞} = `WithBot (WithTop ℝ)`) -/
+
+section Link
+variable [BZone.VolChoice K]
+
+/-- ★ promised boxes that are sound for `BBox.contains` are a `BZone.Sound` zone for the lifted
+    region, so `BZone.zoneInter_sound / foldInter_sound / negate_sound / exteriorBBox_sound`
+    apply to regions built from the primitives -/
+theorem bzone_sound_of_promised_boxes (int ext : BBox ℝ) (hi : int.IsFin) (he : ext.IsNum)
+    (S : Vec3 ℝ → Prop) (h1 : ∀ p, int.contains p = true → S p)
+    (h2 : ∀ p, S p → ext.contains p = true) :
+    BZone.Sound (⟨int.toBox, ext.toBox, false⟩ : BZone.Zone K) (liftRegion S) :=
+  zone_sound_of_boxes int ext hi he S h1 h2
+
+omit [BZone.VolChoice K] in
+/-- `BBox.contains` over explicit infinities is `BZone.mem` over the bounded order -/
+theorem contains_is_bzone_mem (b : BBox ℝ) (hb : b.IsNum) (p : Vec3 ℝ) :
+    b.contains p = true ↔ BZone.mem b.toBox (toP3 p) := contains_iff_mem b hb p
+
+/-- the ellipsoid's promised boxes as a sound zone -/
+theorem bzone_sound_ellipsoid (r : Vec3 ℝ) (hx : 0 < r.x) (hy : 0 < r.y) (hz : 0 < r.z) :
+    BZone.Sound (⟨(ellipsoidBoxes r).2.toBox, (ellipsoidBoxes r).1.toBox, false⟩ : BZone.Zone K)
+      (liftRegion fun p => inEllipsoid r p = true) :=
+  zone_sound_of_boxes _ _
+    (by simp [ellipsoidBoxes, BBox.ofPoints, BBox.IsFin, Ext.IsFin])
+    (by simp [ellipsoidBoxes, BBox.ofPoints, BBox.IsNum, Ext.IsNum]) _
+    (fun p => (ellipsoidBoxes_sound r p hx hy hz).1) (fun p => (ellipsoidBoxes_sound r p hx hy hz).2)
+
+/-- ★ an `AllObjects` of regions with sound promised boxes: folding the real `calc_intersection`
+    over their zones gives a sound zone for the intersection (instance of C09's
+    `foldInter_sound` at ℝ ∪ {±∞}) -/
+theorem bzone_sound_intersection (zs : List (BZone.Zone K × (Vec3 ℝ → Prop)))
+    (h : ∀ zr ∈ zs, BZone.Sound zr.1 (liftRegion zr.2)) :
+    BZone.Sound (zs.foldl (fun acc zr => BZone.zoneInter acc zr.1)
+        (⟨BZone.Box.infinite, BZone.Box.infinite, false⟩ : BZone.Zone K))
+      (fun P => True ∧ ∀ zr ∈ zs.map (fun zr => (zr.1, liftRegion zr.2)), zr.2 P) := by
+  have := BZone.foldInter_sound (zs.map fun zr => (zr.1, liftRegion zr.2))
+    (by intro zr hzr
+        obtain ⟨zr', hzr', rfl⟩ := List.mem_map.mp hzr
+        exact h zr' hzr')
+    _ _ (BZone.fromInfinite_sound (κ := K))
+  simpa only [List.foldl_map] using this
+
+end Link
 
 /-! ### Non-vacuity -/
 example : OffSurfaces (emitBox (⟨1, 2, 3⟩ : Vec3 ℝ)) ⟨0, 0, 0⟩ := by
